@@ -1,6 +1,6 @@
 # C06 - a suspend point never loses or duplicates a ready coroutine
 import re
-from ..core import Item, norm, relloc, live, calls, evs, Broken, value_origin, Tracer, fmt_trace, rooted, has_back_edge
+from ..core import Item, norm, relloc, live, calls, evs, Broken, value_origin, Tracer, fmt_trace, rooted, has_back_edge, pos
 from .. import witness
 from ..rules import *
 
@@ -393,7 +393,7 @@ def growth(ctx, db):
                 if not guards:
                     bad = bad or ('an allocation is not guarded by a capacity test', tr); continue
                 g = guards[-1]
-                full = reached_capacity(g, tr, tr.index(g))
+                full = reached_capacity(g, tr, pos(tr, g))
                 if not full:
                     bad = bad or ('an allocation happens although the count has not reached the capacity', tr)
                 size = re.sub(r'\s+', '', it.get('size') or '')
